@@ -2,6 +2,7 @@ package main
 
 import (
 	"context"
+	"errors"
 	"fmt"
 	"net/http"
 	"net/http/httptest"
@@ -24,7 +25,9 @@ type cOp struct {
 	//             close: "" | dead (stdio: the child was killed and reaped first) | netErr (HTTP kinds: the server is gone, every
 	//             round trip is refused) | brokenStream (legacy SSE: the server ended the event stream first)
 	//             terminate: "" | del500 (the DELETE is answered 500) | netErr
-	K     string // req: ListTools | CallTool | ListPrompts | GetPrompt | ListResources | ReadResource
+	S      string // init: the malformed-answer scenario (malformed.go) the peer plays; E is then the model's environment for it
+	Framed bool   // init with a scenario, streamable: the fake frames its answer as an SSE stream
+	K      string // req: ListTools | CallTool | ListPrompts | GetPrompt | ListResources | ReadResource
 	Fail  bool   // req: the peer answers with a JSON-RPC error
 	Fault bool   // close, filled in by the run: the transport's close() reported an error (what Close returned says so)
 }
@@ -32,6 +35,9 @@ type cOp struct {
 func (o cOp) json() map[string]any {
 	switch o.T {
 	case "init":
+		if o.S != "" {
+			return map[string]any{"t": "init", "e": o.E, "scenario": o.peerName()}
+		}
 		return map[string]any{"t": "init", "e": o.E}
 	case "req":
 		return map[string]any{"t": "req", "k": o.K, "fail": o.Fail}
@@ -47,6 +53,17 @@ func (o cOp) json() map[string]any {
 		return m
 	}
 	return map[string]any{"t": o.T}
+}
+
+// peerName: what the initialize request carries as clientInfo.name — it selects the peer's script.
+func (o cOp) peerName() string {
+	if o.S == "" {
+		return o.E
+	}
+	if o.Framed {
+		return o.S + "@sse"
+	}
+	return o.S
 }
 
 func (o cOp) method() string {
@@ -207,7 +224,14 @@ func runClientHistory(p *peers, kind string, ops []cOp, idx int) histResult {
 	stateReported := false
 	should := false // what happened so far, from the results alone: is the most recent life-cycle event a successful handshake?
 	for i, op := range ops {
-		ctx, cancel := context.WithTimeout(context.Background(), 20*time.Second)
+		deadline := 20 * time.Second
+		if op.T == "init" && op.S != "" && (op.E == "noAnswer" || probeDeadline > 0) {
+			deadline = answerDeadline // the answer will not come: a short deadline, the outcome is "failed" whatever the error says
+			if probeDeadline > 0 {
+				deadline = probeDeadline
+			}
+		}
+		ctx, cancel := context.WithTimeout(context.Background(), deadline)
 		var e error
 		if ct != nil {
 			ct.setEnv("")
@@ -217,7 +241,7 @@ func runClientHistory(p *peers, kind string, ops []cOp, idx int) histResult {
 			if ct != nil {
 				ct.setEnv(op.E)
 			}
-			_, e = conn.Initialize(ctx, &mcp.InitializeRequest{Params: mcp.InitializeParams{ProtocolVersion: "2025-03-26", ClientInfo: mcp.Implementation{Name: op.E, Version: "1"}}})
+			_, e = conn.Initialize(ctx, &mcp.InitializeRequest{Params: mcp.InitializeParams{ProtocolVersion: "2025-03-26", ClientInfo: mcp.Implementation{Name: op.peerName(), Version: "1"}}})
 		case "req":
 			arg := "x"
 			if op.Fail {
@@ -315,6 +339,8 @@ func runClientHistory(p *peers, kind string, ops []cOp, idx int) histResult {
 				need = 2
 			} else if e == nil && op.T == "roots" {
 				need = 1
+			} else if op.T == "init" && e != nil && errors.Is(e, context.DeadlineExceeded) {
+				need = 1 // the request was written and the caller gave up waiting: the child logs it as soon as it has read it
 			}
 			wire = slog.take(need)
 			if wire == nil {
